@@ -45,6 +45,10 @@ def c08_scenarios(tier, rng):
                         for (i, j) in [(1, 2), (1, 3), (2, 3), (3, 1)]:
                             for r in ("abn", "kill"):
                                 hists.append([{"op": "batchstart", "faults": [[i, r]], "i": j}, {"op": "batch", "faults": [[1, "abn"]]}])
+                        # DisableChild on a busy child, a sibling dies before the busy one has gone
+                        for (i, j) in [(1, 2), (2, 3), (3, 1), (2, 1)]:
+                            for r in ("abn", "kill"):
+                                hists.append([{"op": "disablefault", "i": i, "faults": [[j, r]]}, {"op": "batch", "faults": [[(j % n) + 1, "abn"]]}])
                         # the supervisor is told to stop while a child is busy and then leaves with a reason of its own
                         for (i, why, r2) in [(n, "shutdown", "own"), (1, "sig", "own"), (2, "shutdown", "normal"), (n, "sig", "shutdown")]:
                             hists.append([{"op": "exitsup", "faults": [[i, r2]], "why": why}])
@@ -148,6 +152,8 @@ def class_of(v, scn):
         return "afo-keeporder-overlap"
     if scn["type"] == "rfo" and multi:
         return "rfo-overlap"
+    if scn["type"] in ("afo", "rfo") and scn["keeporder"] and any(s["op"] == "disablefault" for s in steps) and v["line"].get("reason") == "panic":
+        return "arfo-keeporder-disable-overlap"
     if scn["type"] in ("afo", "rfo") and v["line"]["ev"] == "enable" and v["line"].get("res") == "supervisor strategy is active":
         return "arfo-stuck-starting"
     return None
